@@ -25,6 +25,24 @@ def check(ctx, cfg):
     r_migrate(ctx, cfg)
     r_layering(ctx, cfg)
     r_dispatch(ctx, cfg)
+    r_overlay(ctx, cfg)
+    r_record(ctx, cfg)
+
+
+def r_record(ctx, cfg):
+    """premises shared with C11 and C17.  A migration sets the new code id on the loaded record and saves it; an admin change
+    does the same with the admin: both take effect only if `save_contract` stores the record it is given (C11.R5 under
+    C12.R7) - and "runs the migrate entry point of the new code" ends in `ContractWrapper::migrate` handing over to the
+    supplied function (C17.R13 under C12.R8)"""
+    from rules import C11, C17
+    C11.record_io(ctx, cfg, "C12.R7")
+    C17.r13(ctx, cfg, R="C12.R8", only=("migrate",))
+
+
+def r_overlay(ctx, cfg):
+    """premise shared with C06 (the transaction overlay is faithful), under this property's id: an admin changed or a code id stored by an earlier message of the transaction decides what the next one may do"""
+    from rules import C06
+    C06.overlay_premise(ctx, cfg, "C12.R6")
 
 
 def r_dispatch(ctx, cfg):
